@@ -1,5 +1,5 @@
 """C16 -- an allocation failure at any allocation point leaves every vector valid and memory uncorrupted."""
-import sys, time, os, json, hashlib
+import hashlib, sys, time, os, json, hashlib
 from fractions import Fraction
 from multiprocessing import Pool as MPool
 from common import *
@@ -175,7 +175,8 @@ def main(tier):
     chk.cov['exhaustive'] = True
     chk.cov['domains'] = ['heap/object model with failure injection in operator new[] / operator new']
     chk.cov['stubs'] = ['operator new[]/new: the j-th call throws std::bad_alloc', 'malloc (GSL shim) never fails']
-    chk.assumptions = ['GSL (malloc) allocation failure is outside the property (it speaks of std::bad_alloc)', 'one failure per operation']
+    chk.assumptions = ['GSL (malloc) allocation failure is outside the property (it speaks of std::bad_alloc)', 'one failure per operation',
+                       'where the source has undefined behaviour the clang IR may define it (measured: delete[] (nullptr - offset) is skipped by clang, executed by g++): a native g++/ASan battery over the catalogue x every failing allocation index from two pre-states covers that gap and is reported as such']
     Pool(nslots=NSLOTS)
     pool_interp_vs_native(chk, sample_programs() if tier == 'thorough' else sample_programs()[:6], nslots=NSLOTS)
     with MPool(min(16, os.cpu_count() or 1)) as mp:
@@ -185,6 +186,43 @@ def main(tier):
         chk.merge_worker(w)
         nf += w.get('nfault', 0)
     chk.cov['fault_points'] = nf
+    # ---- native battery (NOT solver-decided, labelled as such): the g++/ASan build of the same histories with every allocation index failing in turn,
+    # objects built in 0xA5-filled storage.  It exists because the compiled code may differ from the clang IR exactly where the source has
+    # undefined behaviour (e.g. arithmetic on a null pointer, reads of indeterminate members on an error path).
+    nb = 0
+    nat_seen = set()
+    for (dA, dB) in pairs[:1] + ([(3, 2)] if tier != 'quick' else [(3, 2)]):
+        for kk in (('ownA', 'ownB'), ('extA', 'ownB')):      # operands non-empty: arithmetic on empty vectors is outside the claim (C15 assumptions)
+            pre = c08.prestate_program(kk[0], kk[1], dA, dB)
+            for ins in catalogue(dA, dB):
+                ins_n = Ins(ins.op, ins.t, ins.s1, ins.s2, ins.x, ins.y, 0.75 if isinstance(ins.c, Term) else ins.c, ins.ext)
+                for j in (1, 2, 3):
+                    os.environ['POOL_FAIL_STEP'] = str(len(pre))
+                    os.environ['POOL_FAIL_J'] = str(j)
+                    try:
+                        res = native_replay(pre + [ins_n], nslots=NSLOTS, nbufs=3, tag='c16bat')
+                    except Exception as e:
+                        res = {'report': 'native driver failed: %s' % str(e)[:100], 'steps': [], 'exit': -1}
+                    finally:
+                        os.environ.pop('POOL_FAIL_STEP', None)
+                        os.environ.pop('POOL_FAIL_J', None)
+                    st_ = res['steps']
+                    if len(st_) <= len(pre) and not res['report']:
+                        break
+                    if res['report'] is None and (len(st_) <= len(pre) or st_[len(pre)]['rc'] != 2):
+                        break          # fewer than j allocations (or the operation is illegal in this pre-state): no fault was injected
+                    nb += 1
+                    if res['report']:
+                        first = [l for l in res['report'].split('\n') if l.strip()][0][:160]
+                        sig = ins_n.describe().split('  [')[0].split(' t=')[0] + '|' + first.split(' on address')[0][:60]
+                        if sig not in nat_seen:
+                            nat_seen.add(sig)
+                            chk.report('native-battery:' + hashlib.sha1(sig.encode()).hexdigest()[:10],
+                                       'pre-state %s/%s (dims %d,%d): %s with allocation #%d failing, g++/ASan build, objects in 0xA5-filled storage: %s [found by the native battery, not by the solver]' % (
+                                           kk[0], kk[1], dA, dB, ins_n.describe(), j, first),
+                                       {'lines': [i.line() for i in pre + [ins_n]], 'fail_step': len(pre), 'fail_j': j, 'native': res['report'][:600]})
+    chk.cov['native_battery_runs'] = nb
+    chk.cov['interp_vs_native']['cases'] += nb
     seen = set()
     for c in chk.candidates:
         if c['key'] in seen:
